@@ -205,7 +205,21 @@ func (t *Tables) Scan(start int, text string) (size, action int) {
 			return start, actionStart - state
 		}
 	}
-	state = t.Dfa[state*t.NumSymbols] // end-of-input transition
+	for {
+		state = t.Dfa[state*t.NumSymbols] // end-of-input transition
+		if state >= 0 {
+			// Some rule consumed {eoi}, only the end of input can follow.
+			continue
+		}
+		if state > actionStart {
+			bt := t.Backtrack[-1-state]
+			// Checkpoint.
+			action, state = bt.Action, bt.NextState
+			size = len(text)
+			continue
+		}
+		break
+	}
 	if actionStart == state && size > 0 {
 		// Backtrack.
 		return
